@@ -72,9 +72,6 @@ def abs (s : St) : Hp.St := { s.core with tasks := s.ths.filterMap taskOf }
 def encSc (hot : Bool) (n : Nat) : UInt64 := (if hot then top else 0) + n.toUInt64
 def sumRange (i : Int) : Bool := decide (-9007199254740992 < i) && decide (i < 9007199254740992)
 
-def guard {α} (c : Bool) (msg : String) (k : Except String α) : Except String α :=
-  if c then k else .error msg
-
 /-- what an accepted event does: new shared state, new call state, `some rv` = the call is complete -/
 abbrev Res := Hp.St × Pc × Option String
 
